@@ -530,6 +530,15 @@ class _ControlLoopRunner:
 
         await self.adapter.on_tick(tick)
 
+        if any(
+            isinstance(c, (CommandCompleteRun, CommandFailWorkflow, CommandHalt))
+            for c in commands
+        ):
+            # The run ends with this tick. Stop the remaining workers before its
+            # terminal event is published, so that whatever they write while
+            # being cancelled lands in front of it and nothing follows it.
+            await self.cleanup_tasks()
+
         for command in commands:
             try:
                 result = await self.process_command(command)
